@@ -270,6 +270,10 @@ func Prop[C any](t *testing.T, id, kind string, draw func(*rapid.T) C, fn CheckF
 			if err != nil {
 				if inc, ok := err.(*Inconclusive); ok {
 					MarkInconclusive(id, "%s: %s", kind, inc.Msg)
+					path := filepath.Join(replayDir(), fmt.Sprintf("%s-%s-inconclusive-%s.json", id, kind, shard()))
+					b, _ := json.MarshalIndent(replayFile{Property: id, Kind: kind, Error: err.Error(), Case: raw}, "", " ")
+					_ = os.WriteFile(path, b, 0o644)
+					fmt.Printf("INCONCLUSIVE-CASE property=%s kind=%s file=%s\n", id, kind, path)
 					rt.Skip("inconclusive case")
 				}
 				freeze(id)
